@@ -13,7 +13,9 @@
 From Coq Require Import List NArith Bool.
 From Coq Require String.
 Import String.StringSyntax.
-From Sccache Require Import Base.Sx Model.Startup Model.ServerLife.
+From Sccache Require Import Base.Sx.
+From Sccache Require Import Model.Startup.
+From Sccache Require Import Model.ServerLife.
 Import ListNotations.
 Local Open Scope N_scope.
 Local Open Scope string_scope.
@@ -45,8 +47,6 @@ Fixpoint dec_evs (l : list sx) : option (list (ev * N)) :=
               end
   end.
 
-Definition ids (k : N) : list N := map N.of_nat (seq 0 (N.to_nat k)).
-
 Definition enc_cl (c : cstate) : sx :=
   match c with
   | CDone j => SL [sym "done"; SN j]
@@ -70,9 +70,6 @@ Fixpoint accept (s : st) (es : list (ev * N)) (idx : N) : (option (N * N)) * st 
       if (m =? l) && negb (m =? 0) then accept (step s e) r (idx + 1)
       else (Some (idx, m), s)
   end.
-
-Definition all_quiet (k : N) (s : st) : bool :=
-  forallb (fun i => negb (client_enabled s i) && negb (server_enabled s i)) (ids k).
 
 Definition run_race (x : sx) : sx :=
   match x with
@@ -102,7 +99,7 @@ Definition run_sched (x : sx) : sx :=
       | Some a, Some evs =>
           let s0 := init a (N.to_nat (get_N r)) (get_N k) (get_bool stale) in
           let '(ls, s) := labels s0 (map fst evs) in
-          SL (SL (map SN ls) :: sbool (all_quiet (get_N k) s) :: enc_end (get_N k) s)
+          SL (SL (map SN ls) :: sbool (quiescentb (get_N k) s) :: enc_end (get_N k) s)
       | _, _ => err "bad case"
       end
   | _ => err "bad case"
